@@ -351,3 +351,253 @@ def rule_readonly_reopen(ctx):
 
 def rules_c12(ctx):
     return rule_ctor_agree(ctx) + rule_ser_agree(ctx) + rule_readonly_reopen(ctx)
+
+
+# ------------------------------------------------------------------------------------------ C11: multiset queries
+import kinds  # noqa: E402
+
+
+def _pgm_range_ok(k, key):
+    """search range is [begin() + search(key).lo, begin() + search(key).hi) of this->search(key) for the same key"""
+    srch = ('call', 'pgm::PGMIndex::search', (key,), THIS)
+    beg = ('call', M + '::begin', (), THIS)
+    return strip_cast(k[2]) == ('op', '+', beg, ('field', 'lo', srch)) and strip_cast(k[3]) == ('op', '+', beg, ('field', 'hi', srch))
+
+
+def _conj(t):
+    t = strip_cast(t)
+    if t[0] == 'op' and t[1] == '&&':
+        return _conj(t[2]) + _conj(t[3])
+    return [t]
+
+
+def _disj(t):
+    t = strip_cast(t)
+    if t[0] == 'op' and t[1] == '||':
+        return _disj(t[2]) + _disj(t[3])
+    return [t]
+
+
+def _negate(a):
+    a = strip_cast(a)
+    if a[0] == 'op' and len(a) == 4 and a[1] in ('==', '!=', '<', '>', '<=', '>='):
+        return ('op', {'==': '!=', '!=': '==', '<': '>=', '>=': '<', '>': '<=', '<=': '>'}[a[1]], a[2], a[3])
+    if a[0] == 'op' and a[1] == '!' and len(a) == 3:
+        return a[2]
+    return ('op', '!', a)
+
+
+def _subs(t):
+    yield t
+    if isinstance(t, tuple):
+        for x in t:
+            if isinstance(x, tuple):
+                yield from _subs(x)
+
+
+def rules_c11(ctx):
+    """clause-level rules for the multiset queries of MappedPGMIndex"""
+    obs = []
+    for f in ctx.need(M + '::lower_bound', ctx.units):
+        KEY = ('param', f.params[0]['name'])
+        for r in f.returns():
+            k = kinds.kind_of_term(f.term(f.n(r)['ch'][0], inline=True))
+            ok = bool(k) and k[0] == 'FIRST_GE' and k[1] == KEY and _pgm_range_ok(k, KEY)
+            obs.append(Ob('KIND', f, r, 'lower_bound(key) is FIRST_GE(key) inside the range search(key) returned (begin() + lo, begin() + hi)',
+                          f"{k[0] if k else 'unknown'} over [{fmt_term(k[2])[:50] if k else '?'}, {fmt_term(k[3])[:50] if k else '?'})",
+                          OK if ok else (UNDECIDED if k is None else VIOLATED), arm='lower_bound'))
+    for f in ctx.need(M + '::contains', ctx.units):
+        KEY = ('param', f.params[0]['name'])
+        for r in f.returns():
+            t = f.term(f.n(r)['ch'][0], inline=True)
+            ok = t[0] == 'call' and t[1] == 'std::binary_search' and len(t[2]) == 3 and t[2][2] == KEY and _pgm_range_ok(('x', KEY, t[2][0], t[2][1]), KEY)
+            obs.append(Ob('KIND', f, r, 'contains(key) is std::binary_search for key inside the range search(key) returned', fmt_term(t)[:120], OK if ok else VIOLATED, arm='contains'))
+    for f in ctx.need(M + '::upper_bound', ctx.units):
+        g = graph(f)
+        KEY = ('param', f.params[0]['name'])
+        END = ('call', M + '::end', (), THIS)
+        for r in f.returns():
+            k = kinds.kind_of_term(f.term(f.n(r)['ch'][0], inline=False))
+            if not k:
+                obs.append(Ob('KIND', f, r, 'upper_bound(key) is FIRST_GT(key)', 'unrecognised search', UNDECIDED, arm='upper_bound'))
+                continue
+            ok = k[0] == 'FIRST_GT' and k[1] == KEY
+            # window: [it + step/2, min(it + step, end())) with it = FIRST_GT(key) inside the PGM range
+            lo, hi = strip_cast(k[2]), strip_cast(k[3])
+            itv = k0 = None
+            if lo[0] == 'op' and lo[1] == '+' and lo[2][0] == 'local' and strip_cast(lo[3])[0] == 'op' and strip_cast(lo[3])[1] == '/' and strip_cast(lo[3])[3] == ('lit', 2):
+                itv, step = lo[2], strip_cast(strip_cast(lo[3])[2])
+            win_ok = False
+            start_ok = False
+            gal_ok = None
+            hi_ok = None
+            step_ok = None
+            why = f"unrecognised window start `{fmt_term(lo)[:60]}`"
+            if itv is None and lo[0] == 'op' and lo[1] == '+' and lo[2][0] == 'local' and strip_cast(lo[3])[0] == 'local' and strip_cast(lo[3]) in map(strip_cast, _subs(hi)):
+                # `it + step`: the element at it (and those before it + step) may already be greater than key
+                hi_ok = False
+                why = f"window start `{fmt_term(lo)[:60]}` skips positions that were never compared with key (the last proven `== key` position is it + step / 2)"
+            if itv is not None:
+                # step: starts at 1 and only doubles, so that step / 2 is the last probed (== key) offset, or 0
+                d = f.defs.get(step[2]) if step[0] == 'local' else None
+                if d and d.get('init'):
+                    i0 = strip_cast(f.term(d['init'], inline=True))
+                    ws = [strip_cast(f.term(w, inline=False)) for w in d['writes']]
+                    dbl = [w for w in ws if w in (('op', '*=', step, ('lit', 2)), ('op', '<<=', step, ('lit', 1)), ('op', '+=', step, step),
+                                                  ('op', '=', step, ('op', '*', step, ('lit', 2))), ('op', '=', step, ('op', '*', ('lit', 2), step)))]
+                    if i0 == ('lit', 1) and ws and len(dbl) == len(ws):
+                        step_ok = True
+                    elif i0[0] == 'lit' and all(w[0] == 'op' and w[1] in ('*=', '<<=', '+=', '=') for w in ws):
+                        step_ok = False
+                        why = f"step starts at {fmt_term(i0)} and is updated by `{'; '.join(fmt_term(w) for w in ws)[:60]}`: `step / 2` is the last probed offset only if step starts at 1 and doubles"
+                if hi[0] == 'call' and hi[1] == 'std::min' and len(hi[2]) == 2:
+                    hi_ok = set(map(strip_cast, hi[2])) == {('op', '+', itv, step), END}
+                elif hi == END:
+                    hi_ok = True    # [.., end()) is a valid (slower) window
+                elif hi == ('op', '+', itv, step):
+                    hi_ok = False   # after the loop it + step may be past end()
+                else:
+                    hi_ok = None
+                init = f.single_def(itv[2])
+                k0 = kinds.kind_of_term(f.term(init, inline=True)) if init else None
+                # FIRST_GE is as good a start as FIRST_GT: either way everything before `it` is <= key and *it >= key
+                start_ok = bool(k0) and k0[0] in ('FIRST_GT', 'FIRST_GE') and k0[1] == KEY and _pgm_range_ok(k0, KEY)
+                # gallop loop: continue while (it + step < end()) && (*(it + step) == key), doubling the step
+                NEXT = ('op', '+', itv, step)
+                for b in g.reach:
+                    c = g.cond(b)
+                    if not (c and g.blocks[b].get('term_c') in ('WhileStmt', 'ForStmt')):
+                        continue
+                    atoms = _conj(strip_cast(f.term(c, inline=False)))
+                    pi = next((i for i, a in enumerate(atoms) if a[0] == 'op' and len(a) == 4 and ('deref', NEXT) in (strip_cast(a[2]), strip_cast(a[3]))), None)
+                    if pi is None:
+                        continue
+                    probe = atoms[pi]
+                    pl, pr, pop = strip_cast(probe[2]), strip_cast(probe[3]), probe[1]
+                    if pl == KEY:
+                        pl, pr, pop = pr, pl, {'<': '>', '>': '<', '<=': '>=', '>=': '<='}.get(pop, pop)
+                    p_ok = pr == KEY and pop in ('==', '<=')
+                    p_known = pr == KEY and pop in ('==', '<=', '<', '>', '>=', '!=')
+                    guards = [a for a in atoms[:pi] if END in _subs(a)]
+                    late = [a for a in atoms[pi + 1:] if END in _subs(a)]
+                    b_ok = None
+                    for a in guards:
+                        if a[0] == 'op' and len(a) == 4:
+                            l, rr, o = strip_cast(a[2]), strip_cast(a[3]), a[1]
+                            if l == END:
+                                l, rr, o = rr, l, {'<': '>', '>': '<', '<=': '>=', '>=': '<='}.get(o, o)
+                            if l == NEXT and rr == END and o == '<':
+                                b_ok = True
+                            elif l == NEXT and rr == END and o in ('<=', '!=', '>', '>=', '=='):
+                                b_ok = False if b_ok is None else b_ok
+                                why = f"the probe `*(it + step)` is guarded by `{fmt_term(a)[:60]}`, which admits it + step == end()"
+                    if b_ok is None and not guards:
+                        b_ok = False
+                        why = (f"the probe `*(it + step)` is evaluated before the bound `{fmt_term(late[0])[:50]}`" if late else
+                               "the probe `*(it + step)` is not guarded by `it + step < end()`") + f": `{fmt_term(f.term(c, inline=False))[:90]}`"
+                    if b_ok is None:
+                        gal_ok = None  # a bound on end() in a form this rule does not know
+                        why = f"unrecognised bound on the probe: `{fmt_term(f.term(c, inline=False))[:90]}`"
+                    elif not b_ok:
+                        gal_ok = False
+                    elif not p_known:
+                        gal_ok = None
+                        why = f"unrecognised probe test `{fmt_term(probe)[:60]}`"
+                    elif not p_ok:
+                        gal_ok = False
+                        why = f"the gallop continues on `{fmt_term(probe)[:60]}`: for FIRST_GT the window may only grow while the probed element is <= key"
+                    else:
+                        gal_ok = True
+                win_ok = bool(hi_ok and start_ok and gal_ok and step_ok)
+                if win_ok:
+                    why = 'it = FIRST_GT(key) in the PGM range; window [it + step/2, min(it + step, end())) grown while the probe is in range and equals key'
+                elif hi_ok is None:
+                    why = f"unrecognised window end `{fmt_term(hi)[:70]}`"
+                elif not hi_ok:
+                    why = f"window end `{fmt_term(hi)[:70]}` is not min(it + step, end())"
+                elif not start_ok:
+                    why = f"the gallop does not start from FIRST_GT(key)/FIRST_GE(key) inside search(key): {k0[0] if k0 else 'unknown'}"
+            obs.append(Ob('KIND', f, r, 'upper_bound(key) is FIRST_GT(key), galloping past duplicates from the FIRST_GT position inside the PGM range, each probe bounded by end()',
+                          why, OK if (ok and win_ok) else (UNDECIDED if ok and (itv is None or None in (gal_ok, hi_ok, step_ok) or (k0 is None and not start_ok)) and False not in (gal_ok, hi_ok, step_ok) else VIOLATED), arm='upper_bound'))
+    for f in ctx.need(M + '::count', ctx.units):
+        g = graph(f)
+        KEY = ('param', f.params[0]['name'])
+        END = ('call', M + '::end', (), THIS)
+        LB = ('call', M + '::lower_bound', (KEY,), THIS)
+        UB = ('call', M + '::upper_bound', (KEY,), THIS)
+
+        def absent_atom(a):
+            """True: the atom implies `key is not stored`; False: a recognised atom that does not; None: unknown"""
+            a = strip_cast(a)
+            if not (a[0] == 'op' and len(a) == 4):
+                return None
+            l, r, o = strip_cast(a[2]), strip_cast(a[3]), a[1]
+            if r == LB or l == KEY:
+                l, r, o = r, l, {'<': '>', '>': '<', '<=': '>=', '>=': '<='}.get(o, o)
+            if l == LB and r == END:
+                return o == '=='
+            if l == ('deref', LB) and r == KEY:
+                return o in ('!=', '>')      # FIRST_GE never points below key, so `>` and `!=` agree
+            return None
+
+        n_zero = 0
+        for r in f.returns():
+            t = strip_cast(f.term(f.n(r)['ch'][0], inline=True))
+            if t == ('lit', 0):
+                # a constant 0 may only be returned where the path condition implies that key is absent
+                n_zero += 1
+                verdict, why = None, 'no controlling condition'
+                for (b, lab) in g.transitive_control_deps(f.block_of(r)[0]):
+                    c = g.cond(b)
+                    # only whole `if` conditions: the short-circuit blocks of `a || b` are alternatives, not conjuncts
+                    if not c or g.blocks[b].get('term_c') != 'IfStmt':
+                        continue
+                    ct = strip_cast(f.term(c, inline=True))
+                    why = fmt_term(f.term(c, inline=False))[:100]
+                    if lab is True:
+                        vs = [absent_atom(a) for a in _disj(ct)]
+                        v = None if None in vs else all(vs)
+                    else:
+                        # `if (lb != end() && *lb == key) return distance; return 0` : the negation of a conjunction
+                        vs = [absent_atom(_negate(a)) for a in _conj(ct)]
+                        v = None if None in vs else all(vs)
+                    if v is True:
+                        verdict = True
+                        break
+                    if v is False and verdict is None:
+                        verdict = False
+                obs.append(Ob('KIND', f, r, 'count(key) returns the constant 0 only where the path condition implies that key is not stored (lower_bound(key) == end() or *lower_bound(key) != key)',
+                              why, OK if verdict else (UNDECIDED if verdict is None else VIOLATED), arm='count:zero'))
+            elif t[0] == 'call' and t[1] == 'std::distance' and len(t[2]) == 2:
+                a, b2 = strip_cast(t[2][0]), strip_cast(t[2][1])
+                obs.append(Ob('KIND', f, r, 'count(key) is distance(lower_bound(key), upper_bound(key))', fmt_term(t)[:100], OK if (a, b2) == (LB, UB) else VIOLATED, arm='count:distance'))
+            elif t[0] == 'op' and t[1] == '-' and {strip_cast(t[2]), strip_cast(t[3])} == {LB, UB}:
+                obs.append(Ob('KIND', f, r, 'count(key) is upper_bound(key) - lower_bound(key)', fmt_term(t)[:100], OK if strip_cast(t[2]) == UB else VIOLATED, arm='count:distance'))
+            else:
+                obs.append(Ob('KIND', f, r, 'count(key) is distance(lower_bound(key), upper_bound(key))', 'unrecognised: ' + fmt_term(t)[:100], UNDECIDED, arm='count:distance'))
+    for name, want in (('size', ('field', 'n', THIS)), ('end', ('op', '+', ('call', M + '::begin', (), THIS), ('call', M + '::size', (), THIS)))):
+        for f in ctx.need(M + '::' + name, ctx.units):
+            for r in f.returns():
+                t = strip_cast(f.term(f.n(r)['ch'][0], inline=True))
+                obs.append(Ob('DERIVED', f, r, f"{name}() is {fmt_term(want)}", fmt_term(t)[:80], OK if t == want else VIOLATED, arm=name))
+    for f in ctx.need(M + '::begin', ctx.units):
+        for r in f.returns():
+            t = f.term(f.n(r)['ch'][0], inline=True)
+            inner = strip_cast(t)
+            st = UNDECIDED
+            found = fmt_term(t)[:90]
+            if inner[0] == 'op' and inner[1] == '+':
+                a, b = inner[2], strip_cast(inner[3])
+                if strip_cast(a) == ('field', 'data', THIS) and b == ('field', 'header_bytes', THIS):
+                    # the offset is in bytes: the pointer it is added to must have a one-byte pointee (the type of the
+                    # left operand of `+` in the AST, whatever casts produced it)
+                    i = f.n(r)['ch'][0]
+                    while f.n(i)['c'] in ('ImplicitCastExpr', 'ParenExpr', 'CStyleCastExpr', 'CXXReinterpretCastExpr', 'CXXStaticCastExpr', 'CXXFunctionalCastExpr'):
+                        i = f.n(i)['ch'][0]
+                    ty = f.unit.tstr(f.n(f.n(i)['ch'][0]).get('t', 0)) if f.n(i)['c'] == 'BinaryOperator' else '?'
+                    byte = ty.replace('const ', '').strip() in ('char *', 'unsigned char *', 'signed char *', 'std::byte *', 'uint8_t *', 'void *')
+                    st = OK if byte else (VIOLATED if ty != '?' else UNDECIDED)
+                    if not byte:
+                        found = f"header_bytes is added to a `{ty}`: the offset is scaled by the pointee size"
+            obs.append(Ob('DERIVED', f, r, 'begin() is the mapping base plus header_bytes bytes', found, st, arm='begin'))
+    return obs
